@@ -81,6 +81,9 @@ func (c *escapeCallsiteInfoImpl) Resolve(callee *ssa.Function) dataflow.EscapeCa
 	}
 	nodes := calleeSummary.nodes
 	g := NewEmptyEscapeGraph(nodes)
+	// The context graph replaces the callee's initial graph: it must also contain the edges from
+	// the global variables referenced by the callee to their (leaked) storage.
+	addGlobalObjectNodes(callee, g)
 	// Copy over nodes into g that are reachable from the arguments.
 	mappedNodes := map[*Node]bool{}
 	var mapNode func(*Node, *Node)
